@@ -1,3 +1,205 @@
 package main
 
-func runControlsImpl(w *World, verifDir, prop string, extra map[string]interface{}) {}
+// Thorough tier: positive controls (DESIGN §7). Each control is a small edit that breaks
+// one rule instance while still compiling; it is applied to a temporary copy of the
+// analysed tree (outside /repo and /verif, removed at once) and the same analyser must
+// report the expected rule there. Controls never change the verdict of the property;
+// they show that the rules are not vacuous. Two sources:
+//   /verif/controls/<prop>/*.json   hand-written snippet edits {file, old, new, rule}
+//   /verif/seeded/<prop>-*/patch.diff  independently written breaking changes
+
+import (
+	"encoding/json"
+	"fmt"
+	"os"
+	"os/exec"
+	"path/filepath"
+	"sort"
+	"strings"
+	"sync"
+)
+
+type control struct {
+	Name string `json:"name"`
+	File string `json:"file"`
+	Old  string `json:"old"`
+	New  string `json:"new"`
+	Rule string `json:"rule"`
+	Why  string `json:"why"`
+}
+
+type controlResult struct {
+	Name   string `json:"name"`
+	Source string `json:"source"`
+	Status string `json:"status"` // fired | missed | skipped
+	Rules  string `json:"rules_fired,omitempty"`
+	Note   string `json:"note,omitempty"`
+}
+
+func copyTree(src, dst string) error {
+	return filepath.Walk(src, func(p string, info os.FileInfo, err error) error {
+		if err != nil {
+			return err
+		}
+		rel, _ := filepath.Rel(src, p)
+		if info.IsDir() {
+			if info.Name() == ".git" {
+				return filepath.SkipDir
+			}
+			return os.MkdirAll(filepath.Join(dst, rel), 0o755)
+		}
+		if !info.Mode().IsRegular() {
+			return nil
+		}
+		b, err := os.ReadFile(p)
+		if err != nil {
+			return err
+		}
+		return os.WriteFile(filepath.Join(dst, rel), b, 0o644)
+	})
+}
+
+func runOn(root, prop string) (string, error) {
+	cmd := exec.Command(os.Args[0], "-prop", prop, "-root", root, "-no-evidence", "-verif", verifDirGlobal)
+	cmd.Env = append(os.Environ(), "GOFLAGS=-mod=mod", "GOPROXY=off", "GOSUMDB=off", "GOTOOLCHAIN=local", "GOWORK=off")
+	out, err := cmd.CombinedOutput()
+	return string(out), err
+}
+
+func firedRules(out string) []string {
+	set := map[string]bool{}
+	for _, ln := range strings.Split(out, "\n") {
+		if strings.HasPrefix(ln, "FAIL ") {
+			f := strings.Fields(ln)
+			if len(f) > 1 {
+				set[f[1]] = true
+			}
+		}
+	}
+	var rs []string
+	for r := range set {
+		rs = append(rs, r)
+	}
+	sort.Strings(rs)
+	return rs
+}
+
+func runControlsImpl(w *World, verifDir, prop string, extra map[string]interface{}) {
+	type job struct {
+		name, source string
+		apply        func(dir string) (bool, string) // applied?, note
+		wantRule     string
+	}
+	var jobs []job
+	// hand-written controls
+	files, _ := filepath.Glob(filepath.Join(verifDir, "controls", prop, "*.json"))
+	sort.Strings(files)
+	for _, f := range files {
+		b, err := os.ReadFile(f)
+		if err != nil {
+			continue
+		}
+		var cs []control
+		if err := json.Unmarshal(b, &cs); err != nil {
+			var one control
+			if err2 := json.Unmarshal(b, &one); err2 != nil {
+				continue
+			}
+			cs = []control{one}
+		}
+		for _, ct := range cs {
+			ct := ct
+			jobs = append(jobs, job{name: ct.Name, source: "controls/" + prop + "/" + filepath.Base(f), wantRule: ct.Rule, apply: func(dir string) (bool, string) {
+				p := filepath.Join(dir, ct.File)
+				src, err := os.ReadFile(p)
+				if err != nil {
+					return false, "file missing"
+				}
+				if strings.Count(string(src), ct.Old) != 1 {
+					return false, "the snippet to replace no longer occurs exactly once"
+				}
+				return os.WriteFile(p, []byte(strings.Replace(string(src), ct.Old, ct.New, 1)), 0o644) == nil, ""
+			}})
+		}
+	}
+	// seeded changes of this property
+	seeded, _ := filepath.Glob(filepath.Join(verifDir, "seeded", prop+"-*", "patch.diff"))
+	sort.Strings(seeded)
+	for _, pf := range seeded {
+		pf := pf
+		jobs = append(jobs, job{name: filepath.Base(filepath.Dir(pf)), source: "seeded", apply: func(dir string) (bool, string) {
+			cmd := exec.Command("patch", "-p1", "-s", "-i", pf)
+			cmd.Dir = dir
+			if out, err := cmd.CombinedOutput(); err != nil {
+				return false, "patch does not apply: " + strings.TrimSpace(string(out))
+			}
+			return true, ""
+		}})
+	}
+	if len(jobs) == 0 {
+		extra["controls_total"] = 0
+		return
+	}
+	results := make([]controlResult, len(jobs))
+	var wg sync.WaitGroup
+	sem := make(chan struct{}, 8)
+	for i, j := range jobs {
+		wg.Add(1)
+		go func(i int, j job) {
+			defer wg.Done()
+			sem <- struct{}{}
+			defer func() { <-sem }()
+			res := controlResult{Name: j.name, Source: j.source}
+			dir, err := os.MkdirTemp("", "pslint-control-")
+			if err != nil {
+				res.Status, res.Note = "skipped", err.Error()
+				results[i] = res
+				return
+			}
+			defer os.RemoveAll(dir)
+			if err := copyTree(w.Root, dir); err != nil {
+				res.Status, res.Note = "skipped", err.Error()
+				results[i] = res
+				return
+			}
+			ok, note := j.apply(dir)
+			if !ok {
+				res.Status, res.Note = "skipped", note
+				results[i] = res
+				return
+			}
+			out, _ := runOn(dir, prop)
+			rules := firedRules(out)
+			res.Rules = strings.Join(rules, " ")
+			if strings.Contains(out, "cannot load") || strings.Contains(out, "type error") {
+				res.Status, res.Note = "skipped", "the edited tree does not compile"
+			} else if len(rules) == 0 {
+				res.Status = "missed"
+			} else if j.wantRule != "" && !strings.Contains(" "+res.Rules+" ", " "+j.wantRule+" ") {
+				res.Status, res.Note = "missed", "expected rule "+j.wantRule
+			} else {
+				res.Status = "fired"
+			}
+			results[i] = res
+		}(i, j)
+	}
+	wg.Wait()
+	fired, missed, skipped := 0, 0, 0
+	for _, r := range results {
+		switch r.Status {
+		case "fired":
+			fired++
+		case "missed":
+			missed++
+			fmt.Printf("CONTROL-MISS %s %s (%s) %s\n", prop, r.Name, r.Source, r.Note)
+		default:
+			skipped++
+		}
+	}
+	extra["controls_total"] = len(results)
+	extra["controls_fired"] = fired
+	extra["controls_missed"] = missed
+	extra["controls_skipped"] = skipped
+	extra["controls"] = results
+	fmt.Printf("controls %s: %d applied and detected, %d missed, %d skipped\n", prop, fired, missed, skipped)
+}
